@@ -121,8 +121,10 @@ class IORecord:
     _intLength = maxsize + 1
 
     _floatSize = struct.calcsize("f")
-    _floatFormat = " {:+.16E}"
     _floatLength = 2 + 2 + 16 + 4
+    # right-justified in the whole fixed-width field: the leading space is padding, so that a value
+    # with a three-digit exponent still fits the field
+    _floatFormat = "{{:>+{}.16E}}".format(_floatLength)
 
     _characterSize = struct.calcsize("c")
     count = 0
